@@ -5,9 +5,9 @@ import NixModel.Lemmas.C20Local
 
 For each operation of `Store/Step.lean`: if the entity it is called on — and every entity handed
 to it as an argument — is a node of the side `S`, the resulting graph is a `LocalUpd` of the graph before.
-Global deletion (`Container.__delitem__` of plain / section / source containers = `delete_all` by
-id) additionally needs `IdInv`: the deleted ids are carried by nodes of the side only.
-`run_local` lifts this to histories.
+File-wide deletion (`Container.__delitem__` of plain / section / source / feature containers =
+`delete_all` of the item's objects) is handed objects of the side only and is by object, so it needs
+nothing beyond `SideInv` (`C20HistDel.lu_contDel`). `C20HistDel.lu_run` lifts this to histories.
 -/
 namespace Nix.Store.C20
 open Nix.Store Nix.Store.Graph Nix.Store.Lemmas
